@@ -527,13 +527,13 @@ impl Check for C15 {
         }
         ensure_z3_server(&sh.workdir.clone());
         let job = ["bmc", "pdr", "direct", "pdr", "bmc-ind", "pdr", "bmc-corpus"][(case.n % 7) as usize];
-        let persona = PERSONAS[((case.n / 7 + case.n) % 4) as usize];
+        let persona = PERSONAS[((case.n / 3 + case.n) % 4) as usize];
         let seq_file = std::path::PathBuf::from(format!("{}.seq", counter_path(sh).display()));
         let kinds_file = std::path::PathBuf::from(format!("{}.kinds", counter_path(sh).display()));
         let counter = counter_path(sh);
         // find a job with a manageable conversation
         let mut chosen = None;
-        for _ in 0..20 {
+        for _ in 0..40 {
             let spec = format!("{job}:{}:{persona}", rng.next() % 1_000_000);
             let _ = std::fs::remove_file(&kinds_file);
             let base = run_child(sh, &spec, None, &counter, Duration::from_secs(60));
